@@ -1,6 +1,7 @@
 package main
 
 import (
+	"regexp"
 	"bytes"
 	"context"
 	"fmt"
@@ -299,6 +300,8 @@ func scratchRoot() string {
 // sliceScript keeps every plain assumption, and of the definitional lines
 // "(assert (= sym term))" and quantified array axioms only those whose defined
 // symbol is (transitively) referenced.  Dropping assumptions is always sound.
+var reArrayAxiom = regexp.MustCompile(`^\(assert \(forall \(\((\S+) \(_ BitVec 64\)\)\) \(! \(= \(select (\S+) (\S+)\) `)
+
 func isUbiquitous(sym string) bool {
 	return strings.HasPrefix(sym, "p!") || sym == "alloc0" || strings.HasPrefix(sym, "al!") || strings.HasPrefix(sym, "alloc!") ||
 		strings.HasPrefix(sym, "bc!") || strings.HasPrefix(sym, "c!") || strings.HasPrefix(sym, "(") || isSMTKeyword(sym)
@@ -416,15 +419,11 @@ func sliceScript(lines []string, o *SubGoal, cover bool) []string {
 	for i, l := range lines {
 		c := cls{}
 		switch {
-		case strings.HasPrefix(l, "(assert (forall (("):
+		case reArrayAxiom.MatchString(l):
+			// (assert (forall ((i!N S)) (! (= (select ARR i!N) ...: pointwise definition of the fresh array ARR
+			m := reArrayAxiom.FindStringSubmatch(l)
 			c.axiom = true
-			// (assert (forall ((i!N S)) (! (= (select ARR i!N) ...
-			if k := strings.Index(l, "(= (select "); k >= 0 {
-				rest := l[k+len("(= (select "):]
-				if j := strings.IndexByte(rest, ' '); j > 0 {
-					c.def = rest[:j]
-				}
-			}
+			c.def = m[2]
 		case strings.HasPrefix(l, "(assert (= "):
 			rest := l[len("(assert (= "):]
 			if j := strings.IndexByte(rest, ' '); j > 0 && rest[0] != '(' {
